@@ -224,5 +224,61 @@ func c12Facts(e *env) (string, error) {
 	e.facts = append(e.facts, fact{Module: "BlockId", Kind: "source", Name: "maxBlockParts returns", Value: rets, Pos: e.pos(mb)})
 	fmt.Fprintf(&sb, "/-- (entry point, the sized operation was found, the guard conditions on `BlockPartsHeader.Total` that precede it) -/\ndef partsTotalGuards : List (String × Bool × List String) :=\n  [%s]\n\n", strings.Join(rows, ",\n   "))
 	fmt.Fprintf(&sb, "/-- the return statements of `ConsensusState.maxBlockParts` (%s) -/\ndef maxBlockPartsReturns : List String :=\n  [%s]\n\n", e.pos(mb), strings.Join(rets, ", "))
+	// ---- reassembly sites (coverage round): which comparison / loop bound / key format the code uses
+	type site struct {
+		name, file, recv, fn string
+		// node kind: "assign" (first assignment whose LHS is lhs), "call" (first call whose Fun text is fun), "ifcond" (condition of the
+		// first if statement whose body contains needle), "forcond" (condition of the first for statement whose body contains needle)
+		kind, key string
+	}
+	var srows []string
+	for _, st := range []site{
+		{"fastsync.firstParts", "blockchain/reactor.go", "BlockchainReactor", "poolRoutine", "assign", "firstParts"},
+		{"fastsync.firstPartsHeader", "blockchain/reactor.go", "BlockchainReactor", "poolRoutine", "assign", "firstPartsHeader"},
+		{"fastsync.firstID", "blockchain/reactor.go", "BlockchainReactor", "poolRoutine", "assign", "firstID"},
+		{"fastsync.VerifyCommit", "blockchain/reactor.go", "BlockchainReactor", "poolRoutine", "call", "status.Validators.VerifyCommit"},
+		{"consensus.decodeWhen", "consensus/state.go", "ConsensusState", "addProposalBlockPart", "ifcond", "cs.ProposalBlockParts.GetReader()"},
+		{"consensus.decodeFrom", "consensus/state.go", "ConsensusState", "addProposalBlockPart", "call", "ser.DecodeReader"},
+		{"store.partKey", "blockchain/store.go", "", "calcBlockPartKey", "call", "fmt.Sprintf"},
+		{"store.loadBlockLoop", "blockchain/store.go", "BlockStore", "LoadBlock", "forcond", "bs.LoadBlockPart(height, i)"},
+		{"store.saveLoop", "blockchain/store.go", "BlockStore", "SaveBlock", "forcond", "bs.saveBlockPart(height, i, part, bsBatch)"},
+		{"store.saveComplete", "blockchain/store.go", "BlockStore", "SaveBlock", "ifcond", "complete block part sets"},
+	} {
+		fd, err := e.funcDecl(st.file, st.recv, st.fn)
+		if err != nil {
+			return "", err
+		}
+		text := ""
+		ast.Inspect(fd.Body, func(n ast.Node) bool {
+			if text != "" || n == nil {
+				return false
+			}
+			switch x := n.(type) {
+			case *ast.AssignStmt:
+				if st.kind == "assign" && len(x.Lhs) == 1 && c12Src(e, x.Lhs[0]) == st.key {
+					text = c12Src(e, x)
+				}
+			case *ast.CallExpr:
+				if st.kind == "call" && c12Src(e, x.Fun) == st.key {
+					text = c12Src(e, x)
+				}
+			case *ast.IfStmt:
+				if st.kind == "ifcond" && strings.Contains(c12Src(e, x.Body), st.key) {
+					text = c12Src(e, x.Cond)
+				}
+			case *ast.ForStmt:
+				if st.kind == "forcond" && x.Cond != nil && strings.Contains(c12Src(e, x.Body), st.key) {
+					text = c12Src(e, x.Cond)
+				}
+			}
+			return true
+		})
+		if text == "" {
+			return "", fmt.Errorf("anchor site not found: %s in %s:%s", st.name, st.file, st.fn)
+		}
+		srows = append(srows, fmt.Sprintf("(%q, %s)", st.name, strconv.Quote(text)))
+		e.facts = append(e.facts, fact{Module: "BlockId", Kind: "source", Name: st.name, Value: text, Pos: st.file + ":" + st.fn})
+	}
+	fmt.Fprintf(&sb, "/-- reassembly sites: (name, source text) -/\ndef reassemblySites : List (String × String) :=\n  [%s]\n\n", strings.Join(srows, ",\n   "))
 	return sb.String(), nil
 }
